@@ -33,6 +33,8 @@ func init() {
 
 type Socks5Plugin struct {
 	Server *gosocks5.Server
+
+	conns *connTracker
 }
 
 func NewSocks5Plugin(_ PluginContext, options v1.ClientPluginOptions) (p Plugin, err error) {
@@ -44,7 +46,7 @@ func NewSocks5Plugin(_ PluginContext, options v1.ClientPluginOptions) (p Plugin,
 	if opts.Username != "" || opts.Password != "" {
 		cfg.Credentials = gosocks5.StaticCredentials(map[string]string{opts.Username: opts.Password})
 	}
-	sp := &Socks5Plugin{}
+	sp := &Socks5Plugin{conns: newConnTracker()}
 	sp.Server, err = gosocks5.New(cfg)
 	p = sp
 	return
@@ -53,6 +55,10 @@ func NewSocks5Plugin(_ PluginContext, options v1.ClientPluginOptions) (p Plugin,
 func (sp *Socks5Plugin) Handle(_ context.Context, connInfo *ConnectionInfo) {
 	defer connInfo.Conn.Close()
 	wrapConn := netpkg.WrapReadWriteCloserToConn(connInfo.Conn, connInfo.UnderlyingConn)
+	if !sp.conns.Add(wrapConn) {
+		return
+	}
+	defer sp.conns.Remove(wrapConn)
 	_ = sp.Server.ServeConn(wrapConn)
 }
 
@@ -61,5 +67,6 @@ func (sp *Socks5Plugin) Name() string {
 }
 
 func (sp *Socks5Plugin) Close() error {
+	sp.conns.CloseAll()
 	return nil
 }
